@@ -336,9 +336,13 @@ theorem blockOnStage_foot {w w' : World} {c : TCtl} {f mode : Nat}
     (h : w.blockOnStage c f mode = .ok w') : Foot w.tid w.ctl w'.ctl := by
   unfold World.blockOnStage at h; fs_foot3 h
 
-theorem wakeStage_foot {w w' : World} {c : TCtl} {f : Nat} {b : Bool}
-    (h : w.wakeStage c f b = .ok w') : Foot w.tid w.ctl w'.ctl := by
+theorem wakeStage_foot {w w' : World} {c : TCtl} {f : Nat} {b store : Bool}
+    (h : w.wakeStage c f b store = .ok w') : Foot w.tid w.ctl w'.ctl := by
   unfold World.wakeStage at h; fs_foot3 h
+
+theorem awTakeStage_foot {w w' : World} {c : TCtl} {f : Nat}
+    (h : w.awTakeStage c f = .ok w') : Foot w.tid w.ctl w'.ctl := by
+  unfold World.awTakeStage at h; fs_foot3 h
 
 set_option maxHeartbeats 1600000 in
 theorem runOp_foot {w w' : World} {c : TCtl} {op : Op} (h : w.runOp c op = .ok w') :
@@ -348,6 +352,8 @@ theorem runOp_foot {w w' : World} {c : TCtl} {op : Op} (h : w.runOp c op = .ok w
   case blockOn => exact blockOnStage_foot h
   case wake => exact wakeStage_foot h
   case wakeRef => exact wakeStage_foot h
+  case wakeQ => exact wakeStage_foot h
+  case awTake => exact awTakeStage_foot h
   case tls k =>
     simp only [World.runOp] at h
     split at h
